@@ -273,8 +273,15 @@ class Machine(object):
     amb0 = world.ambient_snapshot()
     store_calls0 = len(h.store.calls) if h.store else 0
     live["state_before"] = state_digest(h.est)
+    fired0 = len(h.store.fired) if h.store else 0
     with world.DrawObserver() as obs, world.GlassoSeam() as gs:
       out = self._call(ev, live, h.est.fit, *args, **kwargs)
+    live["fault_fired"] = bool(h.store and len(h.store.fired) > fired0)
+    if live["fault_fired"]:
+      ev["fault_fired"] = True
+      self.cov["faults_fired"] += 1
+    if h.store:
+      h.store.disarm()
     self.seam_missing += obs.missing
     live["solver_calls"] = len(gs.calls)
     live["rng_requests"] = len(obs.created)
@@ -414,8 +421,12 @@ class Machine(object):
                 state_before=state_digest(h.est))
     store0 = len(h.store.calls) if h.store else 0
     dg = (digest(pairs), digest(y))
+    fired0 = len(h.store.fired) if h.store else 0
     with world.DrawObserver() as obs:
       self._call(ev, live, h.est.calibrate_threshold, pairs, y, **cp)
+    live["fault_fired"] = bool(h.store and len(h.store.fired) > fired0)
+    if h.store:
+      h.store.disarm()
     live["draws"] = obs.total_draws()
     live["rng_requests"] = len(obs.created)
     live["store_calls"] = (len(h.store.calls) - store0) if h.store else 0
@@ -485,7 +496,14 @@ class Machine(object):
         return (fn(u, v), fn(u, v, squared=True))
     else:
       f = getattr(h.est, method)
+    fired0 = len(h.store.fired) if h.store else 0
     out = self._call(ev, live, f, *args)
+    live["fault_fired"] = bool(h.store and len(h.store.fired) > fired0)
+    if live["fault_fired"]:
+      ev["fault_fired"] = True
+      self.cov["faults_fired"] += 1
+    if h.store:
+      h.store.disarm()
     live["args_modified"] = [i for i, (a, b) in
                              enumerate(zip(dg, [digest(a) for a in args])) if a != b]
     live["store_calls"] = (len(h.store.calls) - store0) if h.store else 0
